@@ -2,7 +2,7 @@
 # usage: tools/mutw.sh <patch-file | sed:<file>:<expr>> <ID>... [-- tier]
 # Like mutcheck.sh but works on the scratch worktree /tmp/mw (VERIF_REPO), leaving /repo alone.
 set -u
-W=/tmp/mw
+W=${VERIF_SCRATCH:-/tmp/mw}
 chg="$1"; shift
 tier=quick
 ids=()
